@@ -25,6 +25,8 @@ The model is tied to the C++ by T1 (rule table) and the correspondence check K-C
 (`checks/c01.py`): generated programs, exact comparison, both BLAS configurations.
 -/
 import SharkVerif.Lemmas.Remora
+import SharkVerif.Lemmas.RemoraKernels
+import SharkVerif.Gen.RemoraKernelConsts
 import SharkVerif.Gen.RemoraRules
 import SharkVerif.Gen.RemoraOpt
 import Mathlib.Data.List.Nodup
@@ -632,52 +634,12 @@ example : foldSeeded max (0 : Int) (fun k => [-3, -1, -2].getD k 0) 2 = 0 ∧
 example : foldSeeded min (0 : Int) (fun k => [3, 1, 2].getD k 0) 2 = 0 ∧
     foldFrom min (fun k => ([3, 1, 2] : List Int).getD k 0) 2 = 1 := by decide
 
-/-- partial sums over full tiles -/
-theorem sumTo_tiles {R : Type} [CommRing R] (T : Nat) (f : Nat → R) : ∀ q : Nat,
-    sumTo q (fun b => sumTo T (fun k => f (b * T + k))) = sumTo (q * T) f := by
-  intro q
-  induction q with
-  | zero => simp [sumTo]
-  | succ q ih =>
-    simp only [sumTo, ih]
-    rw [Nat.succ_mul, sumTo_append]
-
 /-- **sumTiled_correct** — tiling the inner dimension of a product into `⌈K/T⌉` tiles that start at
 `b*T` and have `min T (K - b*T)` columns gives the defining sum `Σ_{k<K}`, for every tile size
-`T > 0` and every `K` (in particular `K` not a multiple of `T`, `K < T`, `K = 0`). -/
+`T > 0` and every `K` (in particular `K` not a multiple of `T`, `K < T`, `K = 0`).
+(proof: `Lemmas/RemoraKernels.lean`, where the block gemm uses it for its `KC` loop) -/
 theorem sumTiled_correct {R : Type} [CommRing R] (T K : Nat) (hT : 0 < T) (f : Nat → R) :
-    sumTiled T K f = sumTo K f := by
-  unfold sumTiled
-  -- K = q*T + r with r < T
-  obtain ⟨q, r, hr, rfl⟩ : ∃ q r, r < T ∧ K = q * T + r :=
-    ⟨K / T, K % T, Nat.mod_lt _ hT, by rw [Nat.mul_comm]; exact (Nat.div_add_mod K T).symm⟩
-  rcases Nat.eq_zero_or_pos r with h0 | hpos
-  · subst h0
-    have hq : (q * T + 0 + T - 1) / T = q := by
-      have : q * T + 0 + T - 1 = T - 1 + T * q := by rw [Nat.mul_comm]; omega
-      rw [this, Nat.add_mul_div_left _ _ hT, Nat.div_eq_of_lt (by omega)]; omega
-    rw [hq, Nat.add_zero, ← sumTo_tiles T f q]
-    apply sumTo_congr rfl
-    intro b hb
-    have : T ≤ q * T - b * T := by
-      rw [← Nat.sub_mul]; exact Nat.le_mul_of_pos_left T (by omega)
-    rw [Nat.min_eq_left this]
-  · have hq : (q * T + r + T - 1) / T = q + 1 := by
-      have : q * T + r + T - 1 = (r - 1) + T * (q + 1) := by rw [Nat.mul_comm q T, Nat.mul_add]; omega
-      rw [this, Nat.add_mul_div_left _ _ hT, Nat.div_eq_of_lt (by omega)]; omega
-    rw [hq]
-    simp only [sumTo]
-    rw [sumTo_append, ← sumTo_tiles T f q]
-    congr 1
-    · apply sumTo_congr rfl
-      intro b hb
-      have : T ≤ q * T + r - b * T := by
-        have : T ≤ q * T - b * T := by
-          rw [← Nat.sub_mul]; exact Nat.le_mul_of_pos_left T (by omega)
-        omega
-      rw [Nat.min_eq_left this]
-    · have : q * T + r - q * T = r := by omega
-      rw [this, Nat.min_eq_right (by omega)]
+    sumTiled T K f = sumTo K f := sumTiled_eq_sumTo T K hT f
 
 /-- a tile that starts at `b * (current tile size)` instead of `b*T` drops the tail and repeats an
 earlier slice: `K = 3`, `T = 2`, `f k = 10^k` gives `11 + 10` instead of `111` -/
@@ -716,6 +678,120 @@ example : sumTiled 512 513 (fun k => (k : Int)) = sumTo 513 (fun k => (k : Int))
 example : (⟨0, 4, 3⟩ : VRef).last < (⟨9, 4, 3⟩ : VRef).first := by decide
 
 end Kernels
+
+
+/-! ## 3d. the blocked dense kernels equal the element-wise definition, for all block constants -/
+section BlockedKernels
+open SharkVerif.Gen.RemoraKernelConsts
+
+/-- **denseGemm_correct** — the value `kernels::gemm` leaves in a row-major dense target:
+for all well-formed operands `a` (`M × K`), `b` (`K × N`) and ALL positive blocking constants
+`MC, NC, KC, MR, NR`, the packed three-level block gemm (`dense_gemm` → `pack_A/B_dense` → `mgemm`
+→ `ugemm`) turns every target element `(i,j)` into `C(i,j) + ⟦alpha * prod(a,b)⟧(i,j)` — the
+denotation of `matrix_matrix_prod` — and writes nothing outside the `M × N` target. -/
+theorem denseGemm_correct {R : Type} [CommRing R] [DecidableEq R] (a b : MExp R) (hab : a.size2 = b.size1)
+    (MC NC KC MR NR : Nat) (hMC : 0 < MC) (hNC : 0 < NC) (hKC : 0 < KC) (hMR : 0 < MR) (hNR : 0 < NR)
+    (alpha : R) (C : Nat → Nat → R) (i j : Nat) :
+    denseGemm a.size1 b.size2 a.size2 MC NC KC MR NR alpha a.get b.get C i j =
+      if i < a.size1 ∧ j < b.size2 then C i j + (MExp.mmprod a b alpha).get i j else C i j := by
+  have _ := hab
+  rw [denseGemm_spec _ _ _ _ _ _ _ _ hMC hNC hKC hMR hNR]
+  rfl
+
+/-- the same with the constants the C++ uses for `double`, `float` and `long double`
+(regenerated from `gemm_block_size<T>` on every run) -/
+theorem denseGemm_correct_lib {R : Type} [CommRing R] [DecidableEq R] (blk : GemmBlock)
+    (hblk : blk = gemmDouble ∨ blk = gemmFloat ∨ blk = gemmLongDouble)
+    (a b : MExp R) (hab : a.size2 = b.size1) (alpha : R) (C : Nat → Nat → R) (i j : Nat) :
+    denseGemm a.size1 b.size2 a.size2 blk.mc blk.nc blk.kc blk.mr blk.nr alpha a.get b.get C i j =
+      if i < a.size1 ∧ j < b.size2 then C i j + (MExp.mmprod a b alpha).get i j else C i j := by
+  have hok : blk.Ok := by
+    rcases hblk with h | h | h <;> subst h
+    · exact gemmDouble_ok
+    · exact gemmFloat_ok
+    · exact gemmLongDouble_ok
+  obtain ⟨h1, h2, h3, h4, h5, _, _⟩ := hok
+  exact denseGemm_correct a b hab _ _ _ _ _ h3 h5 h4 h1 h2 alpha C i j
+
+/-- a column-major target is computed as `gemm(trans(e2), trans(e1), trans(m))` (`kernels/gemm.hpp`):
+the transposed call yields the transposed product -/
+theorem denseGemm_transposed_dispatch {R : Type} [CommRing R] [DecidableEq R] (a b : MExp R)
+    (MC NC KC MR NR : Nat) (hMC : 0 < MC) (hNC : 0 < NC) (hKC : 0 < KC) (hMR : 0 < MR) (hNR : 0 < NR)
+    (alpha : R) (C : Nat → Nat → R) (i j : Nat) (hi : i < a.size1) (hj : j < b.size2) :
+    denseGemm b.size2 a.size1 a.size2 MC NC KC MR NR alpha (MExp.trans b).get (MExp.trans a).get
+        (fun p q => C q p) j i = C i j + (MExp.mmprod a b alpha).get i j := by
+  rw [denseGemm_spec _ _ _ _ _ _ _ _ hMC hNC hKC hMR hNR, if_pos ⟨hj, hi⟩]
+  show C i j + alpha * sumTo a.size2 (fun k => b.get k j * a.get i k) = C i j + alpha * sumTo a.size2 (fun k => a.get i k * b.get k j)
+  congr 2
+  exact sumTo_congr rfl (fun k _ => by ring)
+
+/-- **packed buffers fit**: `pack_A_dense` writes `⌈mc/MR⌉·kc·MR` cells into a buffer of `MC·KC`
+cells; with `mc ≤ MC`, `kc ≤ KC` that is enough when `MR ∣ MC` (generated theorem `gemm*_ok`) -/
+theorem packedSize_le (mc kc MR MC KC : Nat) (hMR : 0 < MR) (hdiv : MR ∣ MC) (hmc : mc ≤ MC) (hkc : kc ≤ KC) :
+    packedSize mc kc MR ≤ MC * KC := by
+  obtain ⟨q, rfl⟩ := hdiv
+  unfold packedSize nBlocks
+  have h1 : (mc + MR - 1) / MR ≤ q := by
+    rw [Nat.div_le_iff_le_mul_add_pred hMR]
+    have : q * MR = MR * q := Nat.mul_comm _ _
+    omega
+  calc (mc + MR - 1) / MR * kc * MR = ((mc + MR - 1) / MR * MR) * kc := by ring
+    _ ≤ (q * MR) * kc := Nat.mul_le_mul_right _ (Nat.mul_le_mul_right _ h1)
+    _ = MR * q * kc := by ring
+    _ ≤ MR * q * KC := Nat.mul_le_mul_left _ hkc
+
+/-- … and not otherwise: with `MR = 3`, `MC = 4` a full block of 4 rows needs two stripes of 3 -/
+example : ¬ packedSize 4 1 3 ≤ 4 * 1 := by decide
+
+/-- the pointer arithmetic of the C++ addresses the tile the model updates: `&C_[i*MC*ldc + j*NC]`
+advanced by `ip*MR*stride1 + jp*NR*stride2` and `i0*stride1 + j0*stride2` (`stride1 = ldc`,
+`stride2 = 1`) is the row-major address of element `(i*MC + ip*MR + i0, j*NC + jp*NR + j0)` -/
+theorem gemm_tile_address (m : MRef) (hrm : m.rowMajor = true) (i MC ip MR i0 j NC jp NR j0 : Nat) :
+    m.base + (i * MC * m.ld + j * NC) + (ip * MR * m.ld + jp * NR * 1) + (i0 * m.ld + j0 * 1)
+      = m.addr (i * MC + ip * MR + i0) (j * NC + jp * NR + j0) := by
+  simp only [MRef.addr, hrm, if_true]
+  ring
+
+/-- **assignTransBlocked_correct** — `noalias(m) op= e` for a row-major dense target and a
+column-major dense source: the `BS × BS`-blocked kernel gives every target element
+`f(m(i,j), ⟦e⟧(i,j))` and writes nothing else, for EVERY block size `BS > 0` and every shape -/
+theorem assignTransBlocked_correct {R : Type} [Zero R] [Add R] [Mul R] (f : R → R → R) (BS : Nat) (hBS : 0 < BS)
+    (e : MExp R) (m : Nat → Nat → R) (i j : Nat) :
+    assignTransBlocked f BS e.size1 e.size2 e.get m i j =
+      if i < e.size1 ∧ j < e.size2 then f (m i j) (e.get i j) else m i j :=
+  assignTransBlocked_spec f BS e.size1 e.size2 hBS e.get m i j
+
+/-- with the two block sizes of the library (8 for `=`, 16 for `op=`) -/
+theorem assignTransBlocked_correct_lib {R : Type} [Zero R] [Add R] [Mul R] (f : R → R → R) (e : MExp R)
+    (m : Nat → Nat → R) (i j : Nat) (BS : Nat) (hBS : BS = assignTransBlock ∨ BS = assignTransFunctorBlock) :
+    assignTransBlocked f BS e.size1 e.size2 e.get m i j =
+      if i < e.size1 ∧ j < e.size2 then f (m i j) (e.get i j) else m i j := by
+  apply assignTransBlocked_correct
+  rcases hBS with h | h <;> subst h
+  · exact assign_blocks_pos.1
+  · exact assign_blocks_pos.2.1
+
+/-- `foldRowsBlocked_correct` holds in particular for the library's `BLOCK_SIZE` -/
+theorem foldRowsBlock_pos : 0 < foldRowsBlock := assign_blocks_pos.2.2
+
+/-! non-vacuity: the kernels do compute something (a 3×2·2×3 product with 2×2 micro tiles, every
+tile partial or full; a 3×3 transposing assignment with block 2), and a neighbouring wrong variant
+(tile start `l*kc` instead of `l*KC`, i.e. the tile offset taken from the CURRENT tile length)
+differs -/
+example :
+    (List.range 9).map (fun t => denseGemm 3 3 2 2 2 1 2 2 (1 : Int)
+      (fun i k => (i + k : Int)) (fun k j => (k * 3 + j : Int)) (fun _ _ => 100) (t / 3) (t % 3))
+      = [103, 104, 105, 106, 109, 112, 109, 114, 119] := by decide
+example : (MExp.mmprod (MExp.lit 3 2 fun i k => (i + k : Int)) (MExp.lit 2 3 fun k j => (k * 3 + j : Int)) 1).get 2 2 = 19 := by
+  decide
+example :
+    (List.range 9).map (fun t => assignTransBlocked (fun x y => x - y) 2 3 3
+      (fun i j => (10 * i + j : Int)) (fun _ _ => (0 : Int)) (t / 3) (t % 3))
+      = [0, -1, -2, -10, -11, -12, -20, -21, -22] := by decide
+example : sumTo 2 (fun l => sumTo (min 2 (3 - l * 2)) (fun t => (10 : Int) ^ (l * (min 2 (3 - l * 2)) + t))) ≠
+    sumTo 3 (fun k => (10 : Int) ^ k) := by decide
+
+end BlockedKernels
 
 /-! ## 4. non-vacuity: the hypotheses of the theorems above are satisfiable, the statements
 are evaluated on concrete instances (tests, not the theorems) -/
